@@ -139,8 +139,22 @@ class GenerateWasmVisitor(Visitor.DefaultVisitor):
         self, vai: LinearIR.VariableAccessInstruction, ctx: Context
     ):
         assert ctx.Code
-        if vai.Scope == LinearIR.VariableAccessScope.FUNCTION_ARGUMENT:
-            index = vai.Variable
+        if vai.Scope != LinearIR.VariableAccessScope.FUNCTION_ARGUMENT:
+            raise Exception(
+                "Unsupported: access to a variable that is not a function "
+                f"argument ('{vai.Variable}')"
+            )
+
+        index = vai.Variable
+        if vai.Store is not None:
+            # Store to an argument: arguments are the first locals
+            self.__PushValueOntoStack(vai.Store, ctx)
+            ctx.Code.AddInstruction(
+                WebAssembly.Instruction(
+                    WebAssembly.opcodes["local.set"], (index,)
+                )
+            )
+        else:
             ctx.Code.AddInstruction(
                 WebAssembly.Instruction(
                     WebAssembly.opcodes["local.get"], (index,)
@@ -152,6 +166,14 @@ class GenerateWasmVisitor(Visitor.DefaultVisitor):
                     (ctx.GetLocalForReference(vai.Reference),),
                 )
             )
+
+    def v_Instruction(self, instruction: LinearIR.Instruction, ctx: Context):
+        # Any instruction without a handler of its own cannot be translated.
+        # It must not be dropped silently: the function would compute
+        # something else than the program says
+        raise Exception(
+            f"Unsupported instruction for WebAssembly: {instruction.OpCode}"
+        )
 
     def __PushValueOntoStack(self, value: LinearIR.Value, ctx: Context):
         assert ctx.Code
